@@ -70,6 +70,21 @@ class _Break(Exception):
         self.v = v
 
 
+def walk_pat(p):
+    """names bound by a pattern"""
+    if not isinstance(p, dict):
+        return
+    if p.get("k") == "bind":
+        yield p["name"]
+    for k_ in ("subs", "alts"):
+        for s_ in p.get(k_) or []:
+            yield from walk_pat(s_)
+    if isinstance(p.get("sub"), dict):
+        yield from walk_pat(p["sub"])
+    for f_ in p.get("fields") or []:
+        yield from walk_pat(f_.get("pat"))
+
+
 class _Continue(Exception):
     pass
 
@@ -476,6 +491,62 @@ class Interp:
                 recv = [self.ev(e["recv"], env, depth)] if e.get("k") == "mcall" else []
                 args = [self.ev(a, env, depth) for a in e.get("args") or []]
                 return self.builtins[key](self, recv + args)
+        if c in ("alloc::vec::Vec::<T>::new", "alloc::vec::Vec::<T>::with_capacity") or decl in ("alloc::vec::Vec::<T>::new", "alloc::vec::Vec::<T>::with_capacity"):
+            return []
+        # core::mem::take / replace on a place: read it, then store the replacement (Default::default() of its type)
+        if decl in ("core::mem::take", "core::mem::replace") and e.get("k") == "call":
+            target = H.peel_ref(e["args"][0])
+            old_v = self.ev(target, env, depth)
+            if decl == "core::mem::replace":
+                new_v = self.ev(e["args"][1], env, depth)
+            else:
+                ty = (self.f.ty(target.get("ty")) or "").lstrip("&")
+                if ty.startswith("mut "):
+                    ty = ty[4:]
+                dfn = self.f.impl_fn("core::default::Default", ty, "default") if ty else None
+                if ty.startswith("alloc::vec::Vec"):
+                    new_v = []
+                elif ty.startswith("core::option::Option"):
+                    new_v = None
+                elif ty == "alloc::string::String":
+                    new_v = ""
+                elif dfn:
+                    new_v = self.call_fn(dfn, [], depth + 1)
+                else:
+                    raise Unsupported("mem::take of %s" % ty)
+            if target.get("k") == "local":
+                env[target["name"]] = new_v
+            elif target.get("k") == "field":
+                base = self.ev(target["base"], env, depth)
+                if not isinstance(base, dict):
+                    raise Unsupported("mem::take target")
+                base[target["name"]] = new_v
+            else:
+                raise Unsupported("mem::take target")
+            return old_v
+        # a local closure called directly: `let f = |x| ..; f(a)`
+        if e.get("k") == "call" and isinstance(e.get("fn_expr"), dict):
+            fv = self.ev(e["fn_expr"], env, depth)
+            if isinstance(fv, tuple) and len(fv) == 3 and fv[0] == "__closure":
+                args = [self.ev(a, env, depth) for a in e.get("args") or []]
+                # the closure runs in the environment it captured by reference: assignments to captured locals persist
+                _, node, cenv = fv
+                env2 = cenv if cenv is env else env
+                saved = {}
+                for p_, a_ in zip(node.get("params") or [], args):
+                    for b_ in [x for x in walk_pat(p_["pat"])]:
+                        if b_ in env2:
+                            saved[b_] = env2[b_]
+                    if not self.bind(p_["pat"], a_, env2):
+                        raise Unsupported("closure parameter pattern")
+                try:
+                    try:
+                        return self.ev(node["body"], env2, depth + 1)
+                    except _Return as r:
+                        return r.v
+                finally:
+                    for k_, v_ in saved.items():
+                        env2[k_] = v_
         # diverging
         if H.diverges(e):
             raise Diverged(c)
@@ -548,6 +619,25 @@ class Interp:
                     return v
                 raise Unsupported("into %s -> %s" % (rty, ty))
             return v
+        if e.get("k") == "mcall" and name in ("push", "pop", "insert", "extend", "append", "clear") and (decl.startswith("alloc::vec::Vec") or c.startswith("alloc::vec::Vec")):
+            v = self.ev(e["recv"], env, depth)
+            if not isinstance(v, list):
+                raise Unsupported("Vec::%s on %r" % (name, v))
+            args = [self.ev(a, env, depth) for a in e.get("args") or []]
+            if name == "push":
+                v.append(args[0])
+                return ()
+            if name == "pop":
+                return ("__some", v.pop()) if v else None
+            if name == "clear":
+                del v[:]
+                return ()
+            if name in ("extend", "append") and isinstance(args[0], list):
+                v.extend(args[0])
+                if name == "append":
+                    del args[0][:]
+                return ()
+            raise Unsupported("Vec::%s" % name)
         if e.get("k") == "mcall" and name in ("write_fmt", "write_str", "push_str", "push", "write_char"):
             recv = H.place(e["recv"])
             a = self.ev(e["args"][0], env, depth)
